@@ -70,6 +70,36 @@ def run(chk):
     chk.trust("lemma: per-word (w+1)&mask with carry into the next word exactly on wrap-around is the numeric successor of the 2^n-bit number")
     chk.assume("every function exactly once, in increasing order: induction over the successor steps (premises decided here)")
     nlist = [0, 1, 2, 3, 5, 6, 7, 8] if chk.tier == "quick" else list(range(0, 11))
+    # ------------------------------------------------------------------ C08.E  the order agrees with equality
+    # cmp gives Equal exactly for the same number of variables and the same values (C08.O, C02.O.ord); `==` must
+    # say the same: same-size tables are equal iff every word is (C02.O.eq proves it, re-run here on the sizes that
+    # share a block count) and tables of different sizes are never equal although their blocks may be
+    KD = env.kinds["dyn"]
+    eqs = [b_ for b_, sty, tr in facts.trait_impl_methods("std::cmp::PartialEq") if sty.get("path") == KD.adt and b_["name"] == "eq"]
+    if not eqs:
+        chk.refuted("C08.E", "anchor-missing: PartialEq for %s" % KD.adt, "no PartialEq impl")
+    else:
+        for (n1, n2) in ((0, 1), (2, 3), (5, 6), (6, 7), (3, 8)):
+            key = "<%s as PartialEq>::eq n=%d vs %d" % (KD.adt, n1, n2)
+            try:
+                it = env.interp()
+                st = State()
+                pa = KD.place(st, KD.mk(st, n1, sym_words(n1, "a")))
+                pb_ = KD.place(st, KD.mk(st, n2, sym_words(n2, "b")))
+                outs = it.call_body(eqs[0], [pa, pb_], st, {})
+                o, v, d = single_return(outs)
+                if o is not None:
+                    r = o.value
+                    if isinstance(r, W) and r.val == 0:
+                        v, d = PROVED, ""
+                    elif isinstance(r, W) and r.val == 1:
+                        v, d = REFUTED, "tables with %d and %d variables compare equal, cmp orders them" % (n1, n2)
+                    else:
+                        st_, w = pc_status((r,))
+                        v, d = (REFUTED, "tables with %d and %d variables can be `==` (e.g. %s) while cmp never gives Equal for different sizes" % (n1, n2, w)) if st_ == "sat" else ((PROVED, "") if st_ == "unsat" else (UNDECIDED, "eq result not decided"))
+            except Undecided as e:
+                v, d = UNDECIDED, e.cause
+            chk.add("C08.E", key, v, d, where=where_of(eqs[0]))
     # ------------------------------------------------------------------ C08.O
     for kind in ("dyn", "static"):
         K = env.kinds[kind]
